@@ -13,6 +13,10 @@
 //!   sig.sign_recover key comp msg hash rk msg2 hash2 -> OK:<same>;<pubkey> | OK:E
 //!        sign_with_deterministic_k, to_compact_bytes(None), from_compact_bytes, recover_public_key(msg2, hash2);
 //!        same = 1 when the recovered key's bytes equal the signer's to_public_key() bytes
+//!   sig.compact_der der info            -> OK:<65 bytes>   from_der (no recovery info), to_compact_bytes(info); info = n | <recid><c>
+//!   sig.signed key comp msg hash rk info msg2 hash2 -> OK:<65 bytes>;<K<pubkey>|E>;<v>   in-memory signer output: to_compact_bytes(info),
+//!        recover_public_key(msg2, hash2), verify_message(msg2, own key)
+//!   sig.recover_der der msg hash        -> OK:E;E   recovery on an object without recovery info
 //!   sighashsig.roundtrip r s flag       -> OK:<bytes>;<bytes'>  SighashSignature::new(..).to_bytes, from_bytes, to_bytes again
 //!   sighashsig.parse bytes              -> OK:<bytes'>          from_bytes(bytes).to_bytes(); to_hex must agree
 //! hdr = first byte of to_compact_bytes(None), decimal.
@@ -33,6 +37,19 @@ fn flag(args: &[String], i: usize) -> Option<bool> {
         Some("1") => Some(true),
         _ => None,
     }
+}
+/// "n" -> None, "<recid><c>" (two digits, recid 0..3, c 0|1) -> Some(RecoveryInfo)
+fn info_of(args: &[String], i: usize) -> Option<Option<RecoveryInfo>> {
+    let a = args.get(i)?;
+    if a == "n" {
+        return Some(None);
+    }
+    let b = a.as_bytes();
+    if b.len() != 2 || !(b'0'..=b'3').contains(&b[0]) || !(b'0'..=b'1').contains(&b[1]) {
+        return None;
+    }
+    let id = b[0] - b'0';
+    Some(Some(RecoveryInfo::new(id & 1 != 0, id & 2 != 0, b[1] == b'1')))
 }
 fn rs(sig: &Signature) -> String {
     format!("{};{}", hex::encode(sig.r()), hex::encode(sig.s()))
@@ -99,6 +116,9 @@ pub fn run(op: &str, args: &[String]) -> Option<String> {
                 return Some("BADARG".into());
             }
             let info = RecoveryInfo::new(recid & 1 != 0, recid & 2 != 0, comp);
+            if info != RecoveryInfo::from_byte(recid as u8, comp) {
+                return Some("INCONSISTENT".into());
+            }
             let c = sig.to_compact_bytes(Some(info));
             if sig.to_compact_hex(Some(RecoveryInfo::new(recid & 1 != 0, recid & 2 != 0, comp))) != hex::encode(&c) {
                 return Some("INCONSISTENT".into());
@@ -110,24 +130,53 @@ pub fn run(op: &str, args: &[String]) -> Option<String> {
         }
         "sig.from_compact" => {
             let b = some!(arg_bytes(args, 0));
-            let sig = okk!(Signature::from_compact_bytes(&b));
+            let r1 = Signature::from_compact_bytes(&b);
+            let r2 = Signature::from_compact_impl(&b);
+            match (&r1, &r2) {
+                (Ok(a), Ok(c)) if a == c => {}
+                (Err(_), Err(_)) => {}
+                _ => return Some("INCONSISTENT".into()),
+            }
+            let sig = okk!(r1);
             format!("OK:{}", sig_fields(&sig))
         }
         "sig.recover" => {
             let sig = okk!(Signature::from_compact_bytes(&some!(arg_bytes(args, 0))));
             let msg = some!(arg_bytes(args, 1));
             let h = some!(args.get(2).and_then(|s| hash_of(s)));
+            let alt = sig.get_public_key(&msg, h);
             match sig.recover_public_key(&msg, h) {
-                Ok(p) => format!("OK:K;{}", show_bytes(&okk!(p.to_bytes()))),
-                Err(_) => "OK:E".into(),
+                Ok(p) => {
+                    if alt.ok().and_then(|a| a.to_bytes().ok()) != p.to_bytes().ok() {
+                        return Some("INCONSISTENT".into());
+                    }
+                    format!("OK:K;{}", show_bytes(&okk!(p.to_bytes())))
+                }
+                Err(_) => {
+                    if alt.is_ok() {
+                        return Some("INCONSISTENT".into());
+                    }
+                    "OK:E".into()
+                }
             }
         }
         "sig.recover_digest" => {
             let sig = okk!(Signature::from_compact_bytes(&some!(arg_bytes(args, 0))));
             let digest = some!(arg_bytes(args, 1));
+            let alt = sig.get_public_key_from_digest(&digest);
             match sig.recover_public_key_from_digest(&digest) {
-                Ok(p) => format!("OK:K;{}", show_bytes(&okk!(p.to_bytes()))),
-                Err(_) => "OK:E".into(),
+                Ok(p) => {
+                    if alt.ok().and_then(|a| a.to_bytes().ok()) != p.to_bytes().ok() {
+                        return Some("INCONSISTENT".into());
+                    }
+                    format!("OK:K;{}", show_bytes(&okk!(p.to_bytes())))
+                }
+                Err(_) => {
+                    if alt.is_ok() {
+                        return Some("INCONSISTENT".into());
+                    }
+                    "OK:E".into()
+                }
             }
         }
         "sig.sign_recover" => {
@@ -148,6 +197,48 @@ pub fn run(op: &str, args: &[String]) -> Option<String> {
                 }
                 Err(_) => "OK:E".into(),
             }
+        }
+        "sig.compact_der" => {
+            // a signature object WITHOUT recovery info (from_der), serialised with None or an explicit RecoveryInfo
+            let sig = okk!(Signature::from_der(&some!(arg_bytes(args, 0))));
+            let info = some!(info_of(args, 1));
+            let c = sig.to_compact_bytes(info.clone());
+            if sig.to_compact_hex(info) != hex::encode(&c) {
+                return Some("INCONSISTENT".into());
+            }
+            format!("OK:{}", show_bytes(&c))
+        }
+        "sig.signed" => {
+            // the in-memory object returned by the signer (carries its own recovery info), used WITHOUT a serialise/parse
+            // round trip: to_compact_bytes(None | Some(other info)), recover_public_key, verify_message
+            let key = okk!(some!(key_of(args, 0, 1)));
+            let msg = some!(arg_bytes(args, 2));
+            let h = some!(args.get(3).and_then(|s| hash_of(s)));
+            let rk = some!(flag(args, 4));
+            let info = some!(info_of(args, 5));
+            let msg2 = some!(arg_bytes(args, 6));
+            let h2 = some!(args.get(7).and_then(|s| hash_of(s)));
+            let sig = okk!(ECDSA::sign_with_deterministic_k(&key, &msg, h, rk));
+            let c = sig.to_compact_bytes(info);
+            let own = okk!(key.to_public_key());
+            let rec = match sig.recover_public_key(&msg2, h2) {
+                Ok(p) => format!("K{}", show_bytes(&okk!(p.to_bytes()))),
+                Err(_) => "E".into(),
+            };
+            let v = sig.verify_message(&msg2, &own);
+            if v != own.is_valid_message(&msg2, &sig) {
+                return Some("INCONSISTENT".into());
+            }
+            format!("OK:{};{};{}", show_bytes(&c), rec, v as u8)
+        }
+        "sig.recover_der" => {
+            // no recovery info in the object: both recovery functions must return an error
+            let sig = okk!(Signature::from_der(&some!(arg_bytes(args, 0))));
+            let msg = some!(arg_bytes(args, 1));
+            let h = some!(args.get(2).and_then(|s| hash_of(s)));
+            let a = sig.recover_public_key(&msg, h).is_ok();
+            let b = sig.recover_public_key_from_digest(&msg).is_ok();
+            format!("OK:{};{}", if a { "K" } else { "E" }, if b { "K" } else { "E" })
         }
         "sighashsig.roundtrip" => {
             let sig = okk!(sig_of(&some!(arg_bytes(args, 0)), &some!(arg_bytes(args, 1))));
